@@ -18,10 +18,15 @@ const CLOCK: u64 = 1_700_000_000_000;
 fn collect<T>(rx: &Receiver<T>, queues_empty: &dyn Fn() -> bool, text: &dyn Fn(&T) -> String) -> Vec<String> {
     let mut out = Vec::new();
     let mut quiet = 0;
+    let mut idle = 0;
     loop {
         match rx.recv_timeout(Duration::from_millis(40)) {
-            Ok(x) => { let s = text(&x); if !s.is_empty() { out.push(s); } quiet = 0; }
-            Err(_) => { if queues_empty() { quiet += 1; if quiet >= 5 { break; } } }
+            Ok(x) => { let s = text(&x); if !s.is_empty() { out.push(s); } quiet = 0; idle = 0; }
+            Err(_) => {
+                idle += 1;
+                if queues_empty() { quiet += 1; if quiet >= 5 { break; } }
+                if idle >= 50 { break; }   // 2 s without any result: give up waiting (packets stuck in a queue are then simply missing)
+            }
         }
     }
     out
@@ -76,6 +81,64 @@ fn result_key(kind: Kind, text: &str) -> String {
     }
 }
 
+/// the documented entry point: analyze_pcap in parallel mode vs analyze_pcap in sequential mode
+fn pcap_modes(kind: Kind, frames: &[Vec<u8>], workers: usize, batch: usize, timeout: u64, db: &Arc<Database>, tag: &str) -> Option<String> {
+    let dir = concat!(env!("CARGO_MANIFEST_DIR"), "/../../build/tmp");
+    let _ = std::fs::create_dir_all(dir);
+    let path = format!("{}/c10_{}.pcap", dir, tag);
+    hnv_common::pkt::write_pcap(&path, frames);
+    huginn_net_tcp::uptime::verif_hooks::set_frozen_clock(Some(CLOCK));
+    fn drain<T>(rx: &Receiver<T>, idle: &dyn Fn() -> bool, text: &dyn Fn(&T) -> String) -> Vec<String> { collect(rx, idle, text) }
+    let (mut seq, mut par): (Vec<String>, Vec<String>);
+    match kind {
+        Kind::Tcp => {
+            let (tx, rx) = channel();
+            let mut a = huginn_net_tcp::HuginnNetTcp::new(Some(db.clone()), 1000).ok()?;
+            a.analyze_pcap(&path, tx, None).ok()?;
+            seq = rx.try_iter().map(|x| tcp_text(&x)).filter(|s| !s.is_empty()).collect();
+            let (tx, rx) = channel();
+            let mut b = huginn_net_tcp::HuginnNetTcp::with_config(Some(db.clone()), 1000, workers, 4096, batch, timeout).ok()?;
+            b.init_pool(tx.clone()).ok()?;
+            b.analyze_pcap(&path, tx, None).ok()?;
+            let pool = b.worker_pool();
+            par = drain(&rx, &|| pool.as_ref().map(|p| p.stats().workers.iter().all(|w| w.queue_size == 0)).unwrap_or(true), &|x| tcp_text(x));
+        }
+        Kind::Http => {
+            let (tx, rx) = channel();
+            let mut a = huginn_net_http::HuginnNetHttp::new(Some(db.clone()), 1000).ok()?;
+            a.analyze_pcap(&path, tx, None).ok()?;
+            seq = rx.try_iter().map(|x| http_text(&x)).filter(|s| !s.is_empty()).collect();
+            let (tx, rx) = channel();
+            let mut b = huginn_net_http::HuginnNetHttp::with_config(Some(db.clone()), 1000, workers, 4096, batch, timeout).ok()?;
+            b.init_pool(tx.clone()).ok()?;
+            b.analyze_pcap(&path, tx, None).ok()?;
+            let pool = b.worker_pool().cloned();
+            par = drain(&rx, &|| pool.as_ref().map(|p| p.stats().workers.iter().all(|w| w.queue_size == 0)).unwrap_or(true), &|x| http_text(x));
+            if let Some(p) = pool { p.shutdown(); }
+        }
+        _ => {
+            let (tx, rx) = channel();
+            let mut a = huginn_net_tls::HuginnNetTls::new(1000);
+            a.analyze_pcap(&path, tx, None).ok()?;
+            seq = rx.try_iter().map(|x| tls_text(&x)).collect();
+            let (tx, rx) = channel();
+            let mut b = huginn_net_tls::HuginnNetTls::with_config_and_max_connections(workers, 4096, batch, timeout, 1000);
+            b.init_pool(tx.clone()).ok()?;
+            b.analyze_pcap(&path, tx, None).ok()?;
+            let pool = b.worker_pool();
+            par = drain(&rx, &|| pool.as_ref().map(|p| p.stats().workers.iter().all(|w| w.queue_size == 0)).unwrap_or(true), &|x| tls_text(x));
+            if let Some(p) = pool { p.shutdown(); }
+        }
+    }
+    let _ = std::fs::remove_file(&path);
+    seq.sort(); par.sort();
+    if seq != par {
+        let only_seq = seq.iter().find(|s| !par.contains(s)).map(|s| s.chars().take(240).collect::<String>());
+        return Some(format!("analyze_pcap parallel mode differs from sequential mode: sequential {} results, parallel {}; e.g. only sequential: {:?}", seq.len(), par.len(), only_seq));
+    }
+    None
+}
+
 thread_local! { static DB: Arc<Database> = Arc::new(Database::load_default().expect("db")); }
 
 fn seq_texts(kind: Kind, frames: &[Vec<u8>], db: &Database) -> Vec<String> {
@@ -102,6 +165,9 @@ fn run(line: &str) -> String {
                 missing.first().map(|s| s.chars().take(260).collect::<String>()), extra.first().map(|s| s.chars().take(260).collect::<String>())));
             return out;
         }
+        if workers <= 2 {
+            if let Some(msg) = pcap_modes(kind, &frames, workers, batch, timeout, db, &fnv(line)) { out.push_str(&format!("\t!{}", msg)); return out; }
+        }
         let keys: std::collections::BTreeSet<String> = seq.iter().map(|s| result_key(kind, s)).collect();
         for k in keys {
             let a: Vec<String> = seq.iter().filter(|s| result_key(kind, s) == k).map(|s| tok(s)).collect();
@@ -121,7 +187,9 @@ fn gen(r: &mut Rng, tier: &Tier, out: &mut Vec<String>) {
         for j in 0..n {
             let ck = match kind { Kind::Tcp => r.below(4), Kind::Tls => *r.pick(&[1u64, 1, 1, 0]), _ => *r.pick(&[0u64, 0, 3, 3, 2]) };
             let v6 = r.chance(1, 5);
-            conns.push(connection(r, &ConnSpec { kind: ck, v6, id: (case as u64 * 13 + j as u64 * 101) % 5000 + j as u64 * 6000 }, 1_000_000));
+            let mut sp = ConnSpec::new(ck, v6, (case as u64 * 13 + j as u64 * 101) % 5000 + j as u64 * 6000);
+            sp.same_host = r.chance(1, 4);
+            conns.push(connection(r, &sp, 1_000_000));
         }
         let tr = interleave(r, &conns, case % 4 == 0);
         let frames: Vec<Vec<u8>> = tr.iter().map(|(_, (f, _))| f.clone()).collect();
